@@ -188,7 +188,12 @@ pub fn run(ctx: &Ctx) -> i32 {
                 // reached by falling through a piece of the data segment: what is said about the statement
                 // as a whole is said once, not once per instruction
                 let stmt = *rng.pick(&["lw a0, tbl", "sw a1, tbl, t0", "sgez a0, a1", "lb a0, tbl", "sh a1, tbl, t2"]);
-                let t = format!("# two\nmain:\n    li a1, 1\n.data\n    {stmt}\n.text\n    add a0, a0, a1\n    li a7, 1\n    ecall\n    li a7, 10\n    ecall\n.data\ntbl: .word 1\n");
+                let t = if rng.chance(0.3) {
+                    // (the same statement as the last, unreachable, statement of the program)
+                    format!("# two-dead\n.data\ntbl: .word 1\n.text\nmain:\n    li a7, 10\n    ecall\n    {stmt}\n")
+                } else {
+                    format!("# two\nmain:\n    li a1, 1\n.data\n    {stmt}\n.text\n    add a0, a0, a1\n    li a7, 1\n    ecall\n    li a7, 10\n    ecall\n.data\ntbl: .word 1\n")
+                };
                 files = vec![("main.s".to_string(), t)];
                 acc.count("two_instruction_statement_family_programs", 1);
             }
@@ -257,8 +262,9 @@ pub fn run(ctx: &Ctx) -> i32 {
                     if !seen.insert(item.clone()) {
                         let title = item.split('|').next().unwrap_or("").to_string();
                         let multi = g.prog.lines.iter().filter(|l| matches!(l, Line::Label(s) if s.contains("_alias"))).count() > 0;
+                        let dead_pair = files.len() == 1 && files[0].1.starts_with("# two-dead");
                         acc.violation(
-                            format!("C10|dup|{title}|{}", if multi { "multi-label-function" } else { "other" }),
+                            format!("C10|dup|{title}|{}", if dead_pair { "two-instruction-statement-in-dead-code" } else if multi { "multi-label-function" } else { "other" }),
                             format!("the same diagnostic is reported twice: {item}"),
                             replay.clone(),
                         );
